@@ -123,9 +123,13 @@ class Ctx:
             if ok == "FALSE":
                 nbad += 1
                 rec = json.loads(lines[int(idx) - 1])
-                s_ = rec.get("args", {}).get("s", [])
-                self.violation(dict(property=self.pid, what=what, cfg={}, input=s_, text="%s %r %s" % (rec.get("fn"), bytes(s_), json.dumps({k: v for k, v in rec.get("args", {}).items() if k != "s"})),
-                                    sig="judge:" + str(rec.get("fn")), detail=json.dumps(rec.get("res"))[:1500], rec=rec))
+                if "wire" in rec:
+                    self.violation(dict(property=self.pid, what=what, cfg=rec.get("cfg", {}), input=rec["wire"], text=repr(bytes(rec["wire"])), cuts=rec.get("cuts"),
+                                        sig="judge:" + str(rec.get("k")), detail="(%s,%s) %s" % (rec.get("err"), rec.get("offs"), json.dumps(rec.get("obs"))[:1500]), rec=rec))
+                else:
+                    s_ = rec.get("args", {}).get("s", [])
+                    self.violation(dict(property=self.pid, what=what, cfg={}, input=s_, text="%s %r %s" % (rec.get("fn"), bytes(s_), json.dumps({k: v for k, v in rec.get("args", {}).items() if k != "s"})),
+                                        sig="judge:" + str(rec.get("fn")), detail=json.dumps(rec.get("res"))[:1500], rec=rec))
         self.extra.setdefault("judged", []).append(dict(module=module, records=n, failed=nbad, tlc_wall_s=round(res["wall"], 1)))
         return nbad
 
@@ -651,4 +655,39 @@ def plan_C19(ctx):
     ctx.nontrivial = ctx.records
     ctx.need("generated requests with signatures compared", ctx.records, 50000)
 
-PLANS = dict(C19=plan_C19, C09=plan_C09, C14=plan_C14, C18=plan_C18, selftest=selftest, C10=plan_C10, C16=plan_C16, C01=plan_C01, C02=plan_C02, C03=plan_C03, C04=plan_C04, C06=plan_C06, C07=plan_C07, C11=plan_C11, C12=plan_C12, C13=plan_C13)
+def plan_C05(ctx):
+    ctx.extra["rule"] = ("FieldsNested (spec/Props.tla): first-line fields inside the consumed region and in order; stored headers in message "
+        "order, disjoint, name and value inside the header's own (folded) line, only WS ':' LWS between them, value trimmed; name-addr "
+        "sub-fields inside the value, tag inside the parameters, CSeq number/method inside the CSeq value, typed values inside the value "
+        "of the first header of their type; body from the blank line to the returned offset; raw message = [start, offset). TLC checks it "
+        "on the transcription for every generated message (invariant Nested, with AutoEqDecl) and JUDGES the real results (Judge_Msg): "
+        "every message is executed on the real parser one-shot and with a cut, the real observation is written out and evaluated by TLC.")
+    parts = [(1, "hdrs"), (2, "hdrs"), (2, "caps")] + ([] if ctx.quick else [(3, "caps"), (1, "framing")])
+    for K, part in parts:
+        cfg = ("genmsg_%s_%d.cfg" % (part, K), "SPECIFICATION Spec\nCONSTANTS\n  OffsMod = 65536\n  K = %d\n  Part = \"%s\"\n  Prop = \"corpus\"\nINVARIANTS Emit AutoEqDecl Nested\nCHECK_DEADLOCK FALSE\n" % (K, part))
+        r = vlib.run_tlc("MC_GenMsg", cfg, workers=8, timeout=1500)
+        if not r["ok"]: raise Machinery("TLC failed on MC_GenMsg %s K=%d (Nested / AutoEqDecl):\n%s" % (part, K, r["tail"]))
+        ctx.states += r["distinct"]; ctx.transitions += r["generated"]
+        # real results, one-shot and with a cut in the middle, all judged by TLC (sampled when there are many)
+        d = vlib.scratch("c05"); inp = os.path.join(d, "recs.out"); n = 0
+        every = 1 if (K == 1 or not ctx.quick) else 5
+        with open(inp, "w") as f:
+            for line in open(r["out"], errors="replace"):
+                if not line.startswith('"{'): continue
+                n += 1
+                if n % every: continue
+                rec = json.loads(json.loads(line))
+                for cuts in ([len(rec["wire"])], [len(rec["wire"]) // 2, len(rec["wire"])], [len(rec["wire"]) - 3, len(rec["wire"])]):
+                    f.write(json.dumps(json.dumps(dict(rec, cuts=cuts, src="gen"))) + "\n")
+        dr = os.path.join(d, "all.ndjson")
+        rp = vlib.run_job(dict(mode="replay", inputs_file=inp, extra=dict(drift_out=dr, dump_all=True)), "c05")
+        ctx.records += rp["extra"]["records"]; ctx.impl_traces += rp["extra"]["records"]
+        ctx.tlc_runs.append(dict(module="MC_GenMsg", cfg="%s K=%d Nested AutoEqDecl" % (part, K), states=r["distinct"], records=rp["extra"]["records"], tlc_wall_s=round(r["wall"], 1)))
+        ctx.judge("Judge_Msg", dr)
+        if len(ctx.samples) < 6:
+            ctx.samples.append(dict(source="generated message, real observation judged by TLC (Judge_Msg)", case=open(dr).readline()[:600]))
+        shutil.rmtree(d, ignore_errors=True); shutil.rmtree(r["dir"], ignore_errors=True)
+    ctx.nontrivial = ctx.records
+    ctx.need("real message observations judged by TLC", ctx.records, 3000)
+
+PLANS = dict(C05=plan_C05, C19=plan_C19, C09=plan_C09, C14=plan_C14, C18=plan_C18, selftest=selftest, C10=plan_C10, C16=plan_C16, C01=plan_C01, C02=plan_C02, C03=plan_C03, C04=plan_C04, C06=plan_C06, C07=plan_C07, C11=plan_C11, C12=plan_C12, C13=plan_C13)
